@@ -156,7 +156,11 @@ def add_ref_ids(rng, scene, spec):
     if ref is None or ref['kind'] != 'table' or rng.random() < 0.5:
         return
     nsrc = len(ref['sources']) if 'sources' in ref else len(alignsim.ref_sources(scene, ref['region']))
-    ref['ids'] = rng.sample(range(5, 5 + 3 * nsrc + 10), nsrc)
+    # arbitrary distinct integers: numbering from 0 (the id 0 is as good as any other) and negative ids included
+    lo = rng.choice([5, 5, 0, 0, 1, -7])
+    ref['ids'] = rng.sample(range(lo, lo + 3 * nsrc + 10), nsrc)
+    if lo == 0 and nsrc and 0 not in ref['ids']:
+        ref['ids'][rng.randrange(nsrc)] = 0
 
 
 def canon(spec):
